@@ -5,7 +5,7 @@ From Coq Require Import ZArith List Bool QArith Qcanon.
 From Centro Require Import Gen.ConstsC09 Model.Kalman Spec.Kalman Proofs.KalmanHist Proofs.KalmanAlg Proofs.KalmanGain Proofs.KalmanRefine
   Proofs.KalmanArith Proofs.KalmanInv34 Proofs.KalmanParity Proofs.KalmanAssoc
   Proofs.KalmanDetBase Proofs.KalmanDetRow Proofs.KalmanDetAlt Proofs.KalmanAdj Proofs.KalmanSym
-  Proofs.KalmanDetTrans Proofs.KalmanInvFull.
+  Proofs.KalmanDetTrans Proofs.KalmanInvFull Proofs.KalmanLite.
 Import ListNotations.
 Open Scope nat_scope.
 
@@ -290,3 +290,26 @@ Theorem C09_gain_equation : forall (H Pp r : mat) (n : nat),
   mmul (gain H Pp r) S = mmul Pp (mtrans H).
 Proof. exact gain_equation_full. Qed.
 Print Assumptions C09_gain_equation.
+
+(* FULL.  kalman_refines specialised to ONE track kept for ANY number of frames (no bound on the
+   history length: the harness's age cap is a cost limit of the exact replay, not of the theorem). *)
+Theorem C09_single_track_any_length : forall (s : kstate) (zs : list (vec * mat * mat)),
+  wf s -> length (svec s) = 1 ->
+  abs (run s (map track_frame zs)) = [fold_left (track_step (tm s) (om s)) zs (nth 0 (abs s) feat0)].
+Proof. exact single_track_any_length. Qed.
+Print Assumptions C09_single_track_any_length.
+
+(* FULL.  The noise_var-free filter used to replay long tracks agrees with kalman_filter on every
+   other field, for whole histories. *)
+Theorem C09_lite_agrees_trace : forall (fs : list frame) (s s' : kstate), core s = core s' ->
+  map core (run_trace_lite s fs) = map core (run_trace s' fs).
+Proof. exact lite_agrees_trace. Qed.
+Print Assumptions C09_lite_agrees_trace.
+
+(* FULL.  KalmanState.predicted_state_vec / predicted_obs_vec, read by callers: A x and H A x of the
+   feature's own state. *)
+Theorem C09_predicted_obs_own : forall (s : kstate) (k : nat), k < length (svec s) ->
+  nth k (predicted_state_vec s) [] = predict_x (tm s) (nth k (svec s) []) /\
+  nth k (predicted_obs_vec s) [] = mvec (om s) (predict_x (tm s) (nth k (svec s) [])).
+Proof. exact predicted_obs_own. Qed.
+Print Assumptions C09_predicted_obs_own.
